@@ -699,10 +699,20 @@ def gen_case(rng, prop, max_ops=10):
     return mk_case(prop, init, targets, ops, nsp, sub=(prop == 'C02' and rng.random() < 0.5))
 
 
+def _strip_own(o):
+    """`own` (does the class itself hold the Parameter) is judged by the C02 oracle, which knows the finding
+    rejected-class-assignment-copies-inherited-parameter; it is left out of the plain comparison"""
+    if isinstance(o, dict):
+        return {k: _strip_own(v) for k, v in o.items() if k != 'own'}
+    if isinstance(o, list):
+        return [_strip_own(x) for x in o]
+    return o
+
+
 def compare(impl, model):
     from .run import first_diff
     a = {k: v for k, v in impl.items() if k != 'twin'}
-    return first_diff(a, model)
+    return first_diff(_strip_own(a), _strip_own(model))
 
 
 def tags(case, impl):
